@@ -12,7 +12,7 @@ import (
 // keyword pools used when a letter token is replaced, per ecosystem.
 var wordPool = map[string][]string{
 	"alpine":     {"alpha", "beta", "pre", "rc", "cvs", "svn", "git", "hg", "p", "r", "a", "b", "foo"},
-	"alpm":       {"a", "b", "alpha", "beta", "rc", "pre", "p", "git", "r"},
+	"alpm":       {"a", "b", "alpha", "beta", "rc", "pre", "p", "git", "r", "and", "AND", "or"}, // range keywords are ordinary identifiers inside a version
 	"apache":     {"alpha", "beta", "M", "milestone", "RC", "rc", "SNAPSHOT", "dev", "foo"},
 	"cargo":      {"alpha", "beta", "rc", "a", "b", "RC", "x"},
 	"composer":   {"alpha", "beta", "RC", "a", "b", "rc", "dev", "patch", "pl"},
@@ -23,7 +23,7 @@ var wordPool = map[string][]string{
 	"gentoo":     {"alpha", "beta", "pre", "rc", "p", "a", "b", "r"},
 	"github":     {"dev", "alpha", "beta", "rc", "snapshot", "foo", "v"},
 	"golang":     {"alpha", "beta", "rc", "a", "b", "RC", "v"},
-	"hex":        {"alpha", "beta", "rc", "a", "b", "RC"},
+	"hex":        {"alpha", "beta", "rc", "a", "b", "RC", "and", "or", "AND"},
 	"mattermost": {"rc", "esr", "v"},
 	"maven":      {"alpha", "beta", "milestone", "rc", "cr", "snapshot", "ga", "final", "release", "sp", "foo", "a", "b", "m"},
 	"npm":        {"alpha", "beta", "rc", "a", "b", "RC", "v"},
@@ -39,7 +39,7 @@ var BigOK = map[string]bool{"alpm": true, "conan": true, "debian": true, "gem": 
 // tail pieces that may be appended to (or removed from) a version.
 var tailPool = map[string][]string{
 	"alpine":     {".0", ".1", "a", "_alpha", "_alpha1", "_beta2", "_pre", "_rc1", "_p", "_p1", "_git1", "_cvs", "-r0", "-r1", "-r2", "~abc", "_foo"},
-	"alpm":       {".0", ".1", "a", "rc", "rc1", ".a", "_1", "+1", "-1", "-2", "beta", "pre1"},
+	"alpm":       {".0", ".1", "a", "rc", "rc1", ".a", "_1", "+1", "-1", "-2", "beta", "pre1", ".and", "and", ".AND.2", "+or"},
 	"apache":     {"-alpha", "-beta1", "-M1", "-RC1", "-rc2", "-SNAPSHOT", "-dev", "-foo"},
 	"cargo":      {"-alpha", "-alpha.1", "-rc.1", "-0", "-1", "+build", "-a.b", "-rc.1.x"},
 	"composer":   {".0", ".1", "-alpha1", "-beta2", "-RC1", "-rc1", "a1", "b2", "RC3", "-dev", "-patch1", "pl1", "+build", "-alpha", "-patch"},
@@ -50,7 +50,7 @@ var tailPool = map[string][]string{
 	"gentoo":     {".0", ".1", "a", "_alpha", "_beta1", "_pre2", "_rc1", "_p", "_p1", "-r0", "-r1", "-r2"},
 	"github":     {"-alpha", "-beta.1", "-rc.2", ".rc1", "-SNAPSHOT", "-dev", "-foo1"},
 	"golang":     {"-alpha", "-alpha.1", "-rc.1", "-0", "-rc.10", "-rc.2", "+build", "-0.20230101000000-abcdefabcdef"},
-	"hex":        {"-alpha", "-alpha.1", "-rc.1", "-0", "+build", "-rc.10"},
+	"hex":        {"-alpha", "-alpha.1", "-rc.1", "-0", "+build", "-rc.10", "-and", "-and.1", "-or", "+and"},
 	"mattermost": {"-rc1", "-rc2", "-rc", "-esr"},
 	"maven":      {".0", ".1", "-alpha-1", "-a1", "-beta-2", "-M1", "-milestone-1", "-rc1", "-RC1", "-cr1", "-SNAPSHOT", "-sp", "-sp1", "-1", "-foo", ".Final", "-ga", ".RELEASE", "-0"},
 	"npm":        {"-alpha", "-alpha.1", "-rc.1", "-0", "+build", "-rc.10", "-x"},
@@ -98,7 +98,8 @@ func mutateOnce(t *rapid.T, e eco.Eco, v, l string) string {
 			toks[i] = Pick(t, l+"nv", boundary...)
 		case 5:
 			// numbers beyond 64 bits and long zero-padded runs, where the parser keeps digit strings
-			if BigOK[e.Name] {
+			// (elsewhere such a run is often still accepted in a pre-release or qualifier position: tried half of the time)
+			if BigOK[e.Name] || Chance(t, l+"bigtry", 1, 2) {
 				toks[i] = Pick(t, l+"nv", bigRuns...)
 			} else {
 				toks[i] = Pick(t, l+"nv", small...)
@@ -308,4 +309,38 @@ func EqualVariants(e eco.Eco, v string) []string {
 		}
 	}
 	return out
+}
+
+// lengthTargets are total lengths around which parsers tend to have limits or fixed-size buffers.
+var lengthTargets = []int{32, 64, 100, 128, 200, 255, 256, 257, 300, 512, 1000, 1024, 4096}
+
+// Lengthen extends an accepted version by a long accepted tail so that its
+// length lands on (or up to three characters below) one of lengthTargets; with
+// a few characters of padding the padded text then crosses the target while
+// the trimmed text does not. It returns s unchanged when no extension is
+// accepted by the ecosystem.
+func Lengthen(t *rapid.T, e eco.Eco, s, l string) string {
+	target := lengthTargets[rapid.IntRange(0, len(lengthTargets)-1).Draw(t, l+"T")] - rapid.IntRange(0, 3).Draw(t, l+"d")
+	if len(s)+2 >= target {
+		return s
+	}
+	seps := []string{"-", ".", "+", "_", "~", "", "-a.", ".a", "_p"}
+	fills := []string{"a", "1", "a1", "x0", "9"}
+	si := rapid.IntRange(0, len(seps)-1).Draw(t, l+"S")
+	fi := rapid.IntRange(0, len(fills)-1).Draw(t, l+"F")
+	for k := 0; k < len(seps); k++ {
+		sep := seps[(si+k)%len(seps)]
+		for m := 0; m < len(fills); m++ {
+			fill := fills[(fi+m)%len(fills)]
+			n := target - len(s) - len(sep)
+			if n < 1 {
+				continue
+			}
+			c := s + sep + strings.Repeat(fill, n/len(fill)+1)[:n]
+			if accepted(e, c) {
+				return c
+			}
+		}
+	}
+	return s
 }
